@@ -4,11 +4,13 @@ import Nsq.Model.AdminFanout
 import Nsq.Model.Aggregate
 import Nsq.Model.AggregateWire
 import Nsq.Gen.AdminRoutes
+import Nsq.Model.Fetch
 /-! Driver for engine E7 (nsqadmin): one operation per input line, one canonical answer line out.
 
   routes                      → the regenerated route table, `METHOD /path handler;…`
   gate k=v …                  → C17: status, upstream requests, notifications, config write
   view …                      → C18: see `Nsq.Model.AggregateWire`
+  getv1 https=b mode=n        → C18: `Fetch.getV1` against a stub behaviour: outcome, requests seen on the plain / TLS port
 -/
 open Nsq Nsq.Line Nsq.Model.AdminGate
 
@@ -137,6 +139,16 @@ def gate (toks : List String) : String :=
       let cfgw := if obs.contains .configWrite then "1" else "0"
       s!"{status} {reqs} {joinOr (sortStrings notes) ","} {cfgw}"
 
+def getv1 (toks : List String) : String :=
+  match (field toks "mode").toNat? with
+  | none => "bad-op"
+  | some mode =>
+    let start : Nsq.Model.Fetch.Endpoint := if field toks "https" == "1" then ⟨true, 2⟩ else ⟨false, 1⟩
+    let r := Nsq.Model.Fetch.getV1 (Nsq.Model.Fetch.stub mode) start
+    let plain := (r.2.filter (fun e => !e.https && e.port == 1)).length
+    let tls := (r.2.filter (fun e => e.https && e.port == 2)).length
+    (if r.1 == .ok then "ok" else "failed") ++ s!" {plain} {tls}"
+
 end E7
 
 def stepLine (line : String) : String :=
@@ -144,6 +156,7 @@ def stepLine (line : String) : String :=
   | ["routes"] => E7.renderRoutes
   | "gate" :: toks => E7.gate toks
   | "view" :: toks => Nsq.Model.AggregateWire.viewLine toks
+  | "getv1" :: toks => E7.getv1 toks
   | _ => "bad-op"
 
 partial def loop (h : IO.FS.Stream) (out : IO.FS.Stream) : IO Unit := do
